@@ -31,7 +31,15 @@ package verify
 //      valid, note, genesis id, genesis hash, group, lease, rekey-to, receiver, amount, close-to),
 //      AuthAddr set/cleared/flipped, byte flips (first, middle, last of R and of S) in every ed25519
 //      signature present (Sig, each subsig, Lsig.Sig, Lsig msig subsigs), in multisig keys, in the
-//      program (first/last byte), in the PQ signature / public key / salt.
+//      program (first/last byte), in the PQ signature / public key / salt;
+//   G  on every accepted case, same txid but another authorization: each present category removed,
+//      replaced by a stranger's signature, one subsig replaced, program swapped, a second category added;
+//   H  the verified-transaction cache: each accepted case is verified through TxnGroup WITH a real
+//      VerifiedTransactionCache, then the identical group (must hit: 55/55) and every F and G
+//      presentation are looked up with GetUnverifiedTransactionGroups; groups the cache reports as
+//      verified skip verification, the others go through TxnGroup — the way eval.Eval validates a
+//      block. The resulting verdict must equal the oracle's (seeded change C28-A: cache no longer
+//      compares AuthAddr, so "AuthAddr cleared" rides on the cached verification).
 // Oracle: accepted iff exactly one category is present and it is valid for the claimed authorizer
 // (an Lsig: properly delegated / contract account AND the program approves THIS transaction), and
 // AuthAddr != Sender where the protocol enforces it. After a post-signing mutation: rejected — except
@@ -51,6 +59,9 @@ package verify
 //   M2 data/transactions/verify/txn.go: delegated Lsig.Sig verified against Txn.Sender instead of the
 //      authorizer (the old key keeps authorizing after a rekey)          -> part v section D, part e pipeline
 //   M3 verify/txn.go checkTxnSigTypeCounts: two categories tolerated (own) -> part v section A, part e
+// Seeded changes by independent agents: C28-A (verified-txn cache no longer compares AuthAddr) MISSED by the
+// first version, DETECTED since sections G/H here and the Eval-with-warm-cache pipeline of part e; C28-B
+// (PaysetGroups exits before the last workset is queued) DETECTED by part p (verif_c28_p_test.go).
 //   M4 ledger/eval/eval.go transaction(): authorizer compared only when the account has an AuthAddr
 //      (own; a plain account accepts any self-declared AuthAddr)          -> part e stage 2 / pipeline
 
@@ -58,6 +69,7 @@ import (
 	"encoding/hex"
 	"fmt"
 	"strings"
+	"sync/atomic"
 	"testing"
 
 	"github.com/algorand/go-algorand/config"
@@ -580,6 +592,69 @@ func (e *c28env) mutations(c c28case) []c28case {
 	return out
 }
 
+// swaps derives "authorization swapped / removed / added" presentations of an accepted case: same
+// transaction (same txid), different authorization material.
+func (e *c28env) swaps(c c28case) []c28case {
+	var out []c28case
+	orig := c.stxn
+	add := func(name string, st transactions.SignedTxn, accept bool) {
+		out = append(out, c28case{Proto: c.Proto, Sect: "G", Name: "[" + c.Sect + ": " + c.Name + "] " + name, stxn: st, accept: accept, demand: true, kind: c.kind})
+	}
+	xsig := e.X.Sign(orig.Txn)
+	if xsig == orig.Sig { // the case is itself signed by X: use another stranger
+		xsig = e.D.Sign(orig.Txn)
+	}
+	if !orig.Sig.Blank() {
+		st := orig
+		st.Sig = crypto.Signature{}
+		add("sig removed", st, false)
+		st = orig
+		st.Sig = xsig
+		add("sig replaced by a stranger's signature", st, false)
+	} else {
+		st := orig
+		st.Sig = xsig
+		add("stranger's sig added as a second category", st, false)
+	}
+	if !orig.Msig.Blank() {
+		st := orig
+		st.Msig = crypto.MultisigSig{}
+		add("msig removed", st, false)
+		st = orig
+		st.Msig.Subsigs = append([]crypto.MultisigSubsig{}, orig.Msig.Subsigs...)
+		for i := range st.Msig.Subsigs {
+			if !st.Msig.Subsigs[i].Sig.Blank() {
+				st.Msig.Subsigs[i].Sig = xsig
+				break
+			}
+		}
+		add("one subsig replaced by a stranger's signature", st, false)
+	}
+	if orig.Lsig.HasProgram() {
+		st := orig
+		st.Lsig = transactions.LogicSig{}
+		add("lsig removed", st, false)
+		st = orig
+		st.Lsig.Logic = e.reject
+		add("lsig program swapped for the rejecting one", st, false)
+		if !orig.Lsig.Sig.Blank() {
+			st = orig
+			st.Lsig.Sig = e.X.Sign(logic.Program(orig.Lsig.Logic))
+			add("lsig delegation replaced by a stranger's", st, false)
+		}
+	} else {
+		st := orig
+		st.Lsig = transactions.LogicSig{Logic: e.approve}
+		add("approving lsig added as a second category", st, false)
+	}
+	if !orig.PQsig.Blank() {
+		st := orig
+		st.PQsig = transactions.PQSig{}
+		add("pqsig removed", st, false)
+	}
+	return out
+}
+
 func TestVerif_C28_v(t *testing.T) {
 	r := ve.NewRun("C28", "exploration")
 	r.Assume("part v decides validity for the CLAIMED authorizer (AuthAddr, else Sender); that it equals the sender's current authorizer in the ledger is part e")
@@ -657,9 +732,79 @@ func TestVerif_C28_v(t *testing.T) {
 		})
 		total += int(visited)
 	}
+
+	// ---- H: the verified-transaction cache must not launder a changed authorization.
+	// For every accepted case: verify + cache it through the real TxnGroup(cache) path, then present
+	// the identical group (must hit) and every post-signing presentation (sections F and G) with the
+	// cache warm, exactly as eval.Eval does: groups GetUnverifiedTransactionGroups reports as verified
+	// skip signature verification, the others are verified from scratch.
+	crypto.SetEd25519BatchVerifier(false)
+	type c28warm struct {
+		base  c28case
+		pres  []c28case
+		label string
+	}
+	var warm []c28warm
+	for _, lab := range []string{"current", "v40"} {
+		e := envs[lab]
+		for _, c := range e.cases {
+			if c.accept && c.demand {
+				warm = append(warm, c28warm{base: c, pres: append(e.mutations(c), e.swaps(c)...), label: lab})
+			}
+		}
+	}
+	var cacheEvals, cacheTotal int64
+	for _, w := range warm {
+		cacheTotal += int64(len(w.pres) + 1)
+	}
+	visitedH := r.ParallelFor(len(warm), func(i int) {
+		w := warm[i]
+		e := envs[w.label]
+		hdr := e.hdr
+		spec := transactions.SpecialAddresses{FeeSink: hdr.FeeSink, RewardsPool: hdr.RewardsPool}
+		cache := MakeVerifiedTransactionCache(64)
+		if _, err := TxnGroup([]transactions.SignedTxn{w.base.stxn}, &hdr, cache, &logic.NoHeaderLedger{}); err != nil {
+			r.Report("C28:cache:warmup-rejected", fmt.Sprintf("protocol %s: accepted case %q rejected when verified with a cache: %v", w.label, w.base.Name, err), map[string]any{"part": "v", "section": "H", "case": w.base.Name})
+			return
+		}
+		n := 1
+		if unv := cache.GetUnverifiedTransactionGroups([][]transactions.SignedTxn{{w.base.stxn}}, spec, hdr.CurrentProtocol); len(unv) == 0 {
+			r.Add("cache_hits_on_identical_group", 1)
+			r.Class("v/H/identical/hit")
+		} else {
+			r.Add("cache_misses_on_identical_group", 1)
+			r.Class("v/H/identical/miss")
+		}
+		for _, m := range w.pres {
+			n++
+			unv := cache.GetUnverifiedTransactionGroups([][]transactions.SignedTxn{{m.stxn}}, spec, hdr.CurrentProtocol)
+			cacheSaysVerified := len(unv) == 0
+			accepted := cacheSaysVerified
+			if !cacheSaysVerified {
+				_, err := TxnGroup([]transactions.SignedTxn{m.stxn}, &hdr, nil, &logic.NoHeaderLedger{})
+				accepted = err == nil
+			}
+			if cacheSaysVerified {
+				r.Add("cache_reports_changed_group_as_verified", 1)
+			}
+			if !m.demand {
+				r.Class(fmt.Sprintf("v/H/%s/bracketed/cache-verified=%v", m.Sect, cacheSaysVerified))
+				continue
+			}
+			r.Class(fmt.Sprintf("v/H/%s/%s/cache-verified=%v/accepted=%v", m.Sect, m.kind, cacheSaysVerified, accepted))
+			if accepted != m.accept {
+				r.Report(fmt.Sprintf("C28:cache:%s:expected-%v", m.Sect, m.accept),
+					fmt.Sprintf("protocol %s, warm verified-transaction cache: %s -> cache reports verified=%v, pipeline (cache, else TxnGroup) accepted=%v, oracle says accepted=%v", w.label, m.Name, cacheSaysVerified, accepted, m.accept),
+					map[string]any{"engine": "enum", "part": "v", "section": "H", "protocol": w.label, "case": m.Name})
+			}
+		}
+		r.EvalN(n)
+		atomic.AddInt64(&cacheEvals, int64(n))
+	})
+	r.Set("cache_presentations", cacheTotal)
 	cov := ve.Coverage{
-		Rule:       fmt.Sprintf("part v: %d signed-transaction cases (2 protocols x {2^4 presence matrix x 3 authorizer kinds, Sig x AuthAddr grid, 2-of-3 multisig: all 2^3 subsig subsets + 16 malformed variants x 2 claim routes, Lsig 4 programs x 15 delegation forms, PQsig forms} + every single-field / signature-byte mutation of each accepted case), each through verify.TxnGroup under both ed25519 batch verifiers", len(all)),
-		Exhaustive: total == 2*len(all),
+		Rule:       fmt.Sprintf("part v: %d signed-transaction cases (2 protocols x {2^4 presence matrix x 3 authorizer kinds, Sig x AuthAddr grid, 2-of-3 multisig: all 2^3 subsig subsets + 16 malformed variants x 2 claim routes, Lsig 4 programs x 15 delegation forms, PQsig forms} + every single-field / signature-byte mutation of each accepted case), each through verify.TxnGroup under both ed25519 batch verifiers; plus %d presentations (identical group, every mutation, authorization swapped/removed/added) against a verified-transaction cache warmed with the accepted case (GetUnverifiedTransactionGroups, then TxnGroup for the unverified ones, as eval.Eval does)", len(all), cacheTotal),
+		Exhaustive: total == 2*len(all) && visitedH == int64(len(warm)) && atomic.LoadInt64(&cacheEvals) == cacheTotal,
 	}
 	if n := r.Finish(cov); n > 0 {
 		t.Fatalf("C28 part v: %d violation(s)", n)
